@@ -286,6 +286,17 @@ def r5_collection(chk: Check):
                 f"already-added upstream tasks are recognised by {[src(n.ast) for n in dd]}: de-duplication must be by identity (id(task)); two equal-looking tasks that differ by init or pre-tasks are different jobs", loc)
     adds = g.call_nodes(lambda c: src(c) == "dependencies.add(self.task.__xpm__.dependency())")
     vals = [n for n in g.live if n.kind == "for" and "xpmvalues()" in src(n.ast.iter)]
+    inlined_values = False
+    if not vals:
+        # xpmvalues() written out in place: every declared argument that has a value
+        for n in g.live:
+            if n.kind == "for" and src(n.ast.iter) in ("self.xpmtype.arguments.values()",) and isinstance(n.ast.target, ast.Name):
+                a = n.ast.target.id
+                body_src = " ".join(src(b) for b in n.ast.body)
+                skips = [t for t in g.live if t.kind == "test" and src(t.ast) == f"{a}.name in self.values" and g.dominates(n, t)]
+                if skips and f"self.values[{a}.name]" in body_src and "ignored" not in body_src and "generator" not in body_src:
+                    vals.append(n)
+                    inlined_values = True
     chk.require(len(adds) == 1 and len(vals) == 1, chk.fkey(m, "task or values"), "the producing task or else every argument value must be searched", loc)
     if len(adds) == 1 and len(vals) == 1:
         # on every path to exit: the add, or the task-id already seen, or the values loop
@@ -297,7 +308,7 @@ def r5_collection(chk: Check):
         # values of ALL arguments (no filter on ignored / generated)
         xv = tree.func("core.objects", "ConfigInformation.xpmvalues")
         outputs_linked_to_producer(chk)
-        chk.require("ignored" not in src(xv.node), chk.fkey(xv, "no ignored filter"), "xpmvalues() filters ignored arguments: Meta/Option parameters holding task outputs would not be waited for", chk.loc(xv.module, xv.node))
+        chk.require(inlined_values or "ignored" not in src(xv.node), chk.fkey(xv, "no ignored filter"), "xpmvalues() filters ignored arguments: Meta/Option parameters holding task outputs would not be waited for", chk.loc(xv.module, xv.node))
 
 
 def outputs_linked_to_producer(chk: Check):
